@@ -458,6 +458,18 @@ func c16Jobs(tier string) []*SeqJob {
 			return
 		}
 	}
+	longAbandon := func(kind string, n int) (string, string) {
+		c := newCodec(kind)
+		b := reuseShapes[2].build()
+		for i := 0; i < n; i++ {
+			c.abandon(b, 9+i%7)
+			c.abandon(b, 40+i%11)
+		}
+		if cl, det := c16Check(c, reuseShapes[1]); cl != "" {
+			return cl, fmt.Sprintf("after %d abandoned writes on the same protocol object: %s", n, det)
+		}
+		return "", ""
+	}
 	reuse := &SeqJob{Property: "C16", Name: "reused-protocol-sequences"}
 	reuse.Run = func(ctx *SeqCtx) {
 		for _, k := range kinds {
@@ -469,8 +481,30 @@ func c16Jobs(tier string) []*SeqJob {
 		}
 	}
 	reuse.Replay = func(ops []string) (string, string) {
+		if len(ops) == 3 && ops[1] == "abandoned-writes" {
+			var k int
+			fmt.Sscan(ops[2], &k)
+			return longAbandon(ops[0], k)
+		}
 		c, d, _, _ := rexec(ops[0])(opIndex(ralpha, ops[1:]))
 		return c, d
+	}
+	inner := reuse.Run
+	reuse.Run = func(ctx *SeqCtx) {
+		inner(ctx)
+		// every number of abandoned writes from 1 to N on one protocol object, then a complete one
+		maxK := tierInt(tier, 90, 300)
+		for _, k := range kinds {
+			for n := 1; n <= maxK && ctx.viol == nil && !ctx.Expired(); n++ {
+				k, n := k, n
+				cl, det := guard(func() (string, string) { return longAbandon(k, n) })
+				ctx.Case(n+1, true, func() string { return fmt.Sprintf("%s: %d abandoned writes, then a complete one", k, n) })
+				ctx.State(fmt.Sprint(k, "abandon", n))
+				if cl != "" {
+					ctx.Fail(cl, det, []string{k, "abandoned-writes", fmt.Sprint(n)})
+				}
+			}
+		}
 	}
 
 	// upper bound: the size measured with the reporter's maximal placeholders bounds the size with any value
